@@ -296,7 +296,18 @@ fn sig_for(c: &Case, canonical: bool) -> Sig {
     let mut out: Sig = Vec::new();
     let l = if canonical { Layout::c_order(d) } else { c.layout.clone() };
     // a different layout for second operands (reverse permutation, negated steps)
-    let l2 = if canonical { Layout::c_order(d) } else { Layout { perm: l.perm.iter().rev().cloned().collect(), steps: l.steps.iter().map(|s| -s).collect(), pad: 1 } };
+    // when the first operand is contiguous in memory (pad 0) the second is contiguous too, but in a
+    // different memory order (reversed permutation, one axis flipped): exposes pairing by memory order
+    let l2 = if canonical {
+        Layout::c_order(d)
+    } else if l.pad == 0 {
+        let mut steps = l.steps.clone();
+        let k = c.fill % d;
+        steps[k] = -steps[k];
+        Layout { perm: l.perm.iter().rev().cloned().collect(), steps, pad: 0 }
+    } else {
+        Layout { perm: l.perm.iter().rev().cloned().collect(), steps: l.steps.iter().map(|s| -s).collect(), pad: 1 }
+    };
     let l1 = |k: usize| -> Layout {
         if canonical {
             Layout::c_order(1)
@@ -603,7 +614,9 @@ fn compare(canon: &Sig, got: &Sig, c: &Case, lx: &mut Local) {
             (a, b) => a == b,
         };
         if !ok {
-            let key = format!("C20/{}", k.split(|ch: char| ch.is_ascii_digit()).next().unwrap_or(k).trim_end_matches('_'));
+            // key = routine name without its axis / q-index suffixes
+            let base: Vec<&str> = k.split('_').filter(|p| !(p.chars().all(|ch| ch.is_ascii_digit()) || (p.starts_with('q') && p[1..].chars().all(|ch| ch.is_ascii_digit()) && p.len() > 1))).collect();
+            let key = format!("C20/{}", base.join("_"));
             lx.fail(&key, || format!("{} differs: representation gives {:?}, canonical owned C-order array gives {:?}; {:?}", k, v, w, c));
         }
     }
